@@ -10,3 +10,6 @@ import Dm.Props.C01
 #print axioms Dm.Props.C01.fresh_param_unique
 #print axioms Dm.Props.C01.where_predicates_kept
 #print axioms Dm.Props.C01.added_bounds_in_scope
+#print axioms Dm.Props.C01.lifetimesFirst_append
+#print axioms Dm.Props.C01.mem_implParams_of_mem
+#print axioms Dm.Props.C01.args_declared_of_kept
